@@ -183,14 +183,11 @@ def elem_join(container, new):
         return new, False
     deg, bad = add_deg(container.deg, new.deg)
     aff = join_deg(container.aff, new.aff) if not (container.aff == ANY) else new.aff
-    if container.deps is None:
-        deps = new.deps
-    elif new.deps is None:
-        deps = container.deps
-    else:
-        deps = container.deps & new.deps
+    # some element depends on d  <=>  d reaches the returned coordinates: union over the elements
+    deps = dunion(container.deps, new.deps)
     missing = dict(container.missing)
     missing.update(new.missing)
+    missing = {k: v for k, v in missing.items() if k not in deps}
     return AV(deg, aff, deps, container.shape, None, None, missing), bad
 
 
@@ -210,9 +207,20 @@ PROD = {"cross", "dot", "outer", "vdot"}
 class Config:
     """geo: dotted name -> (deg, aff) of the geometric inputs of the function."""
 
-    def __init__(self, geo=None, repo=None, modname=None):
+    def __init__(self, geo=None, repo=None, modname=None, consts=None):
         self.geo = {k: (Fraction(v[0]), Fraction(v[1])) for k, v in (geo or {}).items()}
         self.repo, self.modname = repo, modname
+        self.consts = dict(consts or {})   # parameter name -> python constant (specialises `if p == "literal"` tests)
+
+    def decide(self, test):
+        """truth value of `name == const` / `name != const` tests on a specialised parameter, else None"""
+        if isinstance(test, ast.Compare) and len(test.ops) == 1 and isinstance(test.left, ast.Name) and test.left.id in self.consts \
+                and isinstance(test.comparators[0], ast.Constant) and isinstance(test.ops[0], (ast.Eq, ast.NotEq)):
+            eq = self.consts[test.left.id] == test.comparators[0].value
+            return eq if isinstance(test.ops[0], ast.Eq) else not eq
+        if isinstance(test, ast.Call) and isinstance(test.func, ast.Attribute) and not test.args:
+            return None
+        return None
 
 
 class Interp:
@@ -261,7 +269,8 @@ class Interp:
             return None
 
     def event(self, node, kind, detail):
-        self.events.append((node, kind, detail))
+        if not any(n is node and k == kind for n, k, d in self.events):
+            self.events.append((node, kind, detail))
 
     # ------------------------------------------------------------------ statements
     def block(self, body, env):
@@ -302,6 +311,9 @@ class Interp:
                 self.call_effect(st.value, env, st)
             return env
         if isinstance(st, ast.If):
+            dec = self.cfg.decide(st.test) if self.depth == 0 else None
+            if dec is not None:
+                return self.block(st.body if dec else st.orelse, env)
             e1 = self.block(st.body, dict(env))
             e2 = self.block(st.orelse, dict(env))
             la, lb = f"the branch taken when `{au.src(st.test)}` holds", f"the branch taken when `{au.src(st.test)}` fails"
@@ -418,7 +430,7 @@ class Interp:
             root = _root(t.value)
             # vertex container of a mesh under construction / being edited
             if isinstance(t.value, ast.Attribute) and t.value.attr == "vertices":
-                self.vertex_stores.append((st, v))
+                self._vstore(st, v)
                 if root and root in env and env[root].verts is not None:
                     m = env[root]
                     nv, bad = elem_join(m.verts, v)
@@ -436,14 +448,14 @@ class Interp:
                 env[t.value.id] = nv
                 # row fill:  X[i, :] = ... / X[i] = ...   with i the index of an enclosing loop
                 idx = t.slice.elts[0] if isinstance(t.slice, ast.Tuple) and t.slice.elts else t.slice
-                if isinstance(idx, ast.Name) and idx.id in self.loop_len:
+                if isinstance(idx, ast.Name) and idx.id in self.loop_len and not any(f[0] is st for f in self.fills):
                     self.fills.append((st, cur.shape[0] if cur.shape else None, self.loop_len[idx.id][1], t.value.id))
             return
         # attribute stores are ignored (no geometric content tracked through them)
 
     def vertices_extend(self, mesh_expr, rhs, env, st):
         root = _root(mesh_expr)
-        self.vertex_stores.append((st, rhs))
+        self._vstore(st, rhs)
         if root and root in env and env[root].verts is not None:
             m = env[root]
             nv, bad = elem_join(m.verts, rhs)
@@ -455,6 +467,9 @@ class Interp:
             nv.shape = (rows,)
             env[root] = m.copy(verts=nv)
 
+    def _vstore(self, st, v):
+        self.vertex_stores = [(n, a) for n, a in self.vertex_stores if n is not st] + [(st, v)]
+
     def call_effect(self, c, env, st):
         f = c.func
         if isinstance(f, ast.Attribute) and f.attr in ("append", "extend", "add") and c.args:
@@ -463,7 +478,7 @@ class Interp:
                 if f.attr == "append":
                     v = v.copy(shape=(Poly.const(1),))
                 root = _root(f.value)
-                self.vertex_stores.append((st, v))
+                self._vstore(st, v)
                 if root and root in env and env[root].verts is not None:
                     m = env[root]
                     nv, bad = elem_join(m.verts, v)
